@@ -26,3 +26,11 @@ let desc = { fresh = ll_fresh;
   render_panics = ll_render_panics; of_spec; junk_len = 4000 }
 let run id ops out = run_generic desc id ops out
 let registered = Registry.register "Llldp" run
+let coq_lv (v : lval) = Printf.sprintf "(mkLv %s %s %s)" (coq_z v.lv_type) (coq_z v.lv_len) (coq_zlist v.lv_value)
+let coq_org (o : lorg) = Printf.sprintf "(mkOrg %s %s %s)" (coq_z o.lo_oui) (coq_z o.lo_sub) (coq_zlist o.lo_info)
+let coq_li (n : linfo) = Printf.sprintf "(mkLi %s %s %s %s %s %s %s %s %s %s %s)" (coq_zlist n.li_portdesc) (coq_zlist n.li_sysname) (coq_zlist n.li_sysdesc)
+  (coq_z n.li_syscap) (coq_z n.li_encap) (coq_z n.li_msub) (coq_zlist n.li_maddr) (coq_z n.li_mifsub) (coq_z n.li_mifnum) (coq_zlist n.li_moid) (coq_list coq_org n.li_orgs)
+let coq_ll (l : lldp) = Printf.sprintf "(mkLl %s %s %s %s %s %s %s %s %s %s)" (coq_zlist l.ll_contents) (coq_zlist l.ll_payload) (coq_z l.ll_csub) (coq_zlist l.ll_cid)
+  (coq_z l.ll_psub) (coq_zlist l.ll_pid) (coq_z l.ll_ttl) (coq_list coq_lv l.ll_values) (coq_li l.ll_info) (coq_z l.ll_added)
+let registered_coq = Registry.register_coq "Llldp" ("From GP Require Import Base LlldpModel.\n",
+  Lmidutil.to_coq_dec ~fresh_name:"ll_fresh" ~dec_name:(fun _ -> "ll_decode_into") ~pr:coq_ll ~decode:(fun _ -> ll_decode_into) ~fresh:ll_fresh)
